@@ -128,12 +128,15 @@ theorem sys_key_without_dep_type_breaks_resolution :
     resolveDeps 9 none [] exProv [⟨10, false⟩] = .ok ⟨[10], [], 8⟩ := by decide
 
 /-- source tie (translator, `gen/Cache.json`): the expressions of /repo the model follows — what each
-path charges for a dep group, the block's cycle sum, and when a block's results are cached -/
+path charges for a dep group, the block's cycle sum, when a block's results are cached, and what
+the hit arm records with scripts skipped (6d79679) -/
 theorem source_expressions_are_the_modelled_ones :
     Gen.Cache.SYS_GROUP_SLOTS = "cell_deps.len()" ∧
     Gen.Cache.PROVIDER_GROUP_SLOTS = "sub_out_points.len()" ∧
     Gen.Cache.BLOCK_CYCLE_SUM = "ret.iter().map(|(_, cache_entry)| cache_entry.cycles).sum()" ∧
     Gen.Cache.BLOCK_CACHE_FILL_GUARD = "!ret.is_empty() && !skip_script_verify" ∧
+    Gen.Cache.BLOCK_SKIP_HIT_CYCLES = "0" ∧
+    Gen.Cache.BLOCK_SKIP_HIT_FEE = "completed.fee" ∧
     Gen.Cache.BLOCK_FETCH_KEY = "rtx.transaction.witness_hash()" ∧
     Gen.Cache.BLOCK_LOOKUP_KEY = "tx.transaction.witness_hash()" ∧
     Gen.Cache.POOL_FETCH_KEY = "tx.witness_hash()" ∧
